@@ -72,6 +72,14 @@ func (g *vPwWorld) rowOf(u string) map[string]interface{} {
 		}
 	}
 	out["intact"] = intact
+	out["age"] = 0
+	if iat, ok := raw["iat"].(int64); ok {
+		if h := (now - iat) / 3600; h >= 96 {
+			out["age"] = 2
+		} else if h >= 48 {
+			out["age"] = 1
+		}
+	}
 	out["expired"] = jexp <= now || (exp <= now)
 	if jexp <= now && exp > now {
 		out["expired"] = true // the signed expiry rules
@@ -125,6 +133,20 @@ func (g *vPwWorld) step(a map[string]interface{}) map[string]interface{} {
 			past := time.Now().Unix() - 10
 			cl["exp"], cl["iat"], cl["nbf"] = past, past-96*3600, past-96*3600
 			st.db.Exec("update expiring_signed_user_data set jws_data = ?, expiration_epoch = ? where username = ? and type = 1", vResign("ours", cl), past, u)
+		}
+	case "halflife":
+		// 48 hours pass for this user's record: every signed instant moves that far into the past
+		var jws string
+		var exp int64
+		if st.db.QueryRow("select jws_data, expiration_epoch from expiring_signed_user_data where username = ? and type = 1", u).Scan(&jws, &exp) == nil {
+			cl := vPayload(jws)
+			const d = 48*3600 + 5
+			for _, k := range []string{"exp", "iat", "nbf"} {
+				if v, ok := cl[k].(int64); ok {
+					cl[k] = v - d
+				}
+			}
+			st.db.Exec("update expiring_signed_user_data set jws_data = ?, expiration_epoch = ? where username = ? and type = 1", vResign("ours", cl), exp-d, u)
 		}
 	case "tamper":
 		var jws string
